@@ -35,14 +35,14 @@ META = {
 }
 
 FILES = ("ocsp_roundtrip.ndjson", "ocsp_accept.ndjson", "ocsp_fault.ndjson", "ocsp_request.ndjson",
-         "ocsp_forcert.ndjson")
+         "ocsp_forcert.ndjson", "ocsp_rid.ndjson")
 
 
 def run(ctx):
     binary = ctx.gobuild("c13")
     r = ctx.tlc("OCSPGen", "OCSP_gen.cfg", workers=1, timeout=3000, subst={"DEEP": "FALSE" if ctx.quick else "TRUE"},
                 label="OCSPGen deep=%s" % (not ctx.quick))
-    m = re.search(r'<<"CASES", (\d+), (\d+), (\d+), (\d+), (\d+)>>', r.out)
+    m = re.search(r'<<"CASES", (\d+), (\d+), (\d+), (\d+), (\d+), (\d+)>>', r.out)
     if not m:
         raise Machinery("OCSPGen printed no case counts")
     counts = [int(x) for x in m.groups()]
@@ -54,7 +54,7 @@ def run(ctx):
         shutil.move(ctx.specfile(f), os.path.join(d, f))
     p = ctx.run(binary, ["replay-gen", d], timeout=6000)
     cands, st = ctx.harness_output(p)
-    fams = ["roundtrip", "accept", "fault", "request", "forcert"]
+    fams = ["roundtrip", "accept", "fault", "request", "forcert", "rid"]
     for fam, n in zip(fams, counts):
         if st.get(fam + "_cases") != n:
             raise Machinery("harness ran %s %s cases, TLC generated %d" % (st.get(fam + "_cases"), fam, n))
